@@ -389,7 +389,7 @@ def strategy(tier):
             d["gene"] = st.sampled_from(SHIPPED[:8] if tier == "quick" else SHIPPED)
             d["alleles"] = st.lists(st.integers(0, 2000), min_size=1, max_size=2)
         else:
-            d["db"] = gen_db.db_specs(sv=False, pseudo=False, kinds=["snp", "snp", "mnp", "ins", "del"], gaps=True, twins=True)
+            d["db"] = gen_db.db_specs(sv=False, pseudo=False, kinds=["snp", "snp", "mnp", "ins", "del"], gaps=True, twins=True, chrs=("7", "7", "X"))
         return st.fixed_dictionaries(d)
 
     base = {
